@@ -12,6 +12,8 @@ From Coq Require Import QArith.
 From HclV Require Import Base.Prelude Cty.Values Cty.Convert Cty.Ops Eval.Impl Eval.Funcs
                          Eval.UnknownSound_Base Eval.UnknownSound_Known Eval.UnknownSound_Gamma
                          Eval.UnknownSound_Ops Eval.UnknownSound_Fn Eval.UnknownSound_Frag Eval.UnknownSound.
+(* [in_fragmentb] covers every constructor of [expr]: the only syntactic restrictions left are on literals
+   ([lit_ok]) and on traversal steps ([step_inv]); the semantic side conditions are in [clean]. *)
 Open Scope Z_scope.
 
 (* ---- boolean versions of the hypotheses --------------------------------------------------------------------- *)
@@ -28,7 +30,10 @@ Fixpoint in_fragmentb (e : expr) : bool :=
   | ECond a b c => in_fragmentb a && in_fragmentb b && in_fragmentb c
   | ECall _ args _ => forallb in_fragmentb args
   | EJoin te => in_fragmentb te
-  | _ => false
+  | ESplat src each => in_fragmentb src && in_fragmentb each
+  | EFor _ _ coll key vl cond _ =>
+      in_fragmentb coll && match key with Some k => in_fragmentb k | None => true end &&
+      in_fragmentb vl && match cond with Some ce => in_fragmentb ce | None => true end
   end.
 
 Lemma in_fragmentb_sound : forall e, in_fragmentb e = true -> in_fragment e.
@@ -48,6 +53,11 @@ Proof.
     apply andb_true_iff in H1 as [Hk Hv].
     constructor; [split; apply IH; assumption|apply IHl; exact H2].
   - apply F_objkey. apply IH. exact H.
+  - apply andb_true_iff in H as [H Hc]. apply andb_true_iff in H as [H Hv]. apply andb_true_iff in H as [Hcl Hk].
+    apply F_for; [apply IH; exact Hcl| |apply IH; exact Hv|].
+    + destruct key as [k|]; intros k' E; [injection E as <-; apply IH; exact Hk|discriminate E].
+    + destruct cond as [ce|]; intros ce' E; [injection E as <-; apply IH; exact Hc|discriminate E].
+  - apply andb_true_iff in H as [H1 H2]. apply F_splat; apply IH; assumption.
   - apply F_anon.
   - apply andb_true_iff in H as [H1 H2]. apply F_bin; apply IH; assumption.
   - apply F_un. apply IH. exact H.
@@ -139,6 +149,8 @@ Definition c05_violations (ks : list c05case) : list Z := failing (fun k => negb
 Definition c05_skipped (ks : list c05case) : list Z := failing (fun k => negb (c05_case_status k =? 2)) ks.
 (* how many cases exercise the theorem's hypotheses *)
 Definition c05_covered (ks : list c05case) : Z := Z.of_nat (length (filter theorem_applies ks)).
+(* the same as a list of indices (the form the case files print): cases that do NOT meet the hypotheses *)
+Definition c05_uncovered (ks : list c05case) : list Z := failing theorem_applies ks.
 
 (* the two witnesses, as cases *)
 Example c05_case_w1 :
@@ -146,4 +158,22 @@ Example c05_case_w1 :
 Proof. vm_compute. reflexivity. Qed.
 Example c05_case_w2 :
   c05_case_status (mkC05 w2_ctxA w2_ctxC w2_expr_eq 0 (VBool true) [] (VBool false) []) = 3.
+Proof. vm_compute. reflexivity. Qed.
+
+(* cases of the constructs added to the fragment: the hypotheses of the theorem are met *)
+Definition k_of (e : expr) (vA vC : val) : c05case :=
+  mkC05 (Samples.mk vA) (Samples.mk vC) e 0 (fst (value (Samples.mk vA) e)) [] (fst (value (Samples.mk vC) e)) [].
+Example c05_covered_constructs :
+  forallb (fun k => theorem_applies k && (c05_case_status k =? 0))
+    [ k_of (EFor [] [118] Samples.X None (EBin OpAdd Samples.V Samples.one) (Some (EBin OpGt Samples.V Samples.one)) false)
+           Samples.ulist Samples.nlist;
+      k_of (EFor [107] [118] Samples.X (Some (EScopeTrav [107] [])) Samples.V None true)
+           (VMap TNum [([97], VUnk TNum rf_none)]) Samples.nmap;
+      k_of (EFor [] [118] Samples.X None Samples.V None false) (VUnk (TList TNum) rf_none) Samples.nlist;
+      k_of (ESplat Samples.X (EBin OpAdd EAnon Samples.one)) Samples.ulist Samples.nlist;
+      k_of (ESplat Samples.X EAnon) (VUnk (TList TNum) (Samples.rl 2 (Some 3) true)) Samples.nlist;
+      k_of (ESplat Samples.X EAnon) (VUnk TNum rf_none) (VNull TNum);
+      k_of (ECall [117] [Samples.X] false) (VUnk TStr rf_none) (VStr [97]);
+      k_of (ECall [115] [Samples.X] true) Samples.ulist Samples.nlist;
+      k_of (EJoin (EFor [] [118] Samples.X None Samples.V None false)) Samples.ulist Samples.nlist ] = true.
 Proof. vm_compute. reflexivity. Qed.
